@@ -134,6 +134,22 @@ def check_case(ctx, recipe, built, c, geom_kind, geom, buffer, variant, items) -
             sig = 'grid-clip-coordinates-as-variables'
         ctx.oracle_fail(sig, desc, f'clipping raised {err}')
         return
+    if mesh:
+        # the selected edges and nodes are exactly those of the selected faces (generator's ground truth)
+        keepF = ~np.isnan(mask['new_face_index'].values)
+        want_nodes = sorted({n for f, k in zip(recipe['faces'], keepF) if k for n in f})
+        got_nodes = [int(i) for i in np.flatnonzero(~np.isnan(mask['new_node_index'].values))]
+        if got_nodes != want_nodes:
+            ctx.oracle_fail('selected-nodes-not-of-selected-faces', desc, f'nodes kept {got_nodes}, nodes of the selected faces {want_nodes}')
+        if 'new_edge_index' in mask:
+            want_edges = sorted({e for fe, k in zip(built.extra['face_edges'], keepF) if k for e in fe})
+            got_edges = [int(i) for i in np.flatnonzero(~np.isnan(mask['new_edge_index'].values))]
+            tables = set(recipe['enc'].get('tables', []))
+            # edge numbering is the generator's only when an edge table fixing it is supplied
+            if tables & {'edge_node', 'face_edge'} and got_edges != want_edges:
+                ctx.oracle_fail('selected-edges-not-of-selected-faces', desc, f'edges kept {got_edges}, edges of the selected faces {want_edges}')
+            elif len(got_edges) != len(want_edges):
+                ctx.oracle_fail('selected-edges-not-of-selected-faces', desc, f'{len(got_edges)} edges kept, the selected faces have {len(want_edges)}')
     for name, info in target_built.vars.items():
         da = ds[name]
         if name not in out:
